@@ -77,7 +77,7 @@ prop("C07", level="other", stages=[tierc.stage_for("C07")], trusted_base=FFT_TRU
      technique="Verus ghost frame totals on extracted integer slices (FFT adapters); Tier B carried-position bounds + Z3 (asynchronous)",
      explanation="frame accounting without drift")
 prop("C03", level="other", stages=[tierc.stage_for("C03")], trusted_base=FFT_TRUST,
-     technique="Verus overflow/range obligations on extracted slices; Tier B index-range VCs + Z3; Kani/CBMC safety checks on the compiled crate",
+     technique="Verus overflow/range obligations on extracted slices (FFT adapters) and on the extracted scalar sinc kernel / table construction (all sizes); Tier B index-range VCs + Z3; Kani/CBMC safety checks on the compiled crate",
      explanation="no UB / OOB / panic on valid histories")
 prop("C10", level="other", stages=[tierc.stage_for("C10")], trusted_base=FFT_TRUST,
      technique="Verus reset-vs-constructor postconditions (FFT); expression identity + Z3 (asynchronous); Kani bounded buffer zeroing",
@@ -105,6 +105,7 @@ for _p in ("C03", "C06"):
 from . import tierc_kernel  # noqa: E402
 # scalar sinc kernel + table construction under Verus contracts, all sizes (replaces reliance on the bounded Kani contract)
 PROPS["C03"]["stages"].append(tierc_kernel.stage)
+PROPS["C03"]["stages"].append(tierc_kernel.length_stage)
 PROPS["C03"].setdefault("assumptions", []).extend(tierc_kernel.ASSUMPTIONS)
 
 from . import tierb_misc  # noqa: E402
